@@ -83,6 +83,36 @@ async def realise(ctx, sq, n, scen, rnd):
         r = await c.response(method, 8.0, vid=n)
         c.close()
         await o.stop()
+    elif par['dir'] == 'resp304':
+        # the fields ride on a 304 that refreshes a stored response: neither the answer to the revalidating client nor
+        # the updated stored copy (two later hits) may carry them
+        hdrs, fields, closing = make_fields(dict(par, dir='resp'), rnd, base)
+        etag = '"e%d"' % n
+
+        async def responder(q, oc):
+            if q.head.has('If-None-Match') or q.head.has('If-Modified-Since'):
+                hs = [('Date', peers.http_date()), ('ETag', etag), ('Cache-Control', 'max-age=100')] + [h for h in hdrs if h[0] not in ('Upgrade', 'Trailer')]
+                await oc.send(peers.response_head(304, 'Not Modified', hs))
+            else:
+                hs = [('Date', peers.http_date()), ('ETag', etag), ('Last-Modified', peers.http_date(__import__('time').time() - 86400)), ('Cache-Control', 'max-age=100'), ('Content-Length', '5')]
+                await oc.send(peers.response_head(200, 'OK', hs) + b'hello')
+            if closing:
+                oc.close()
+                return True
+            return False
+        o = await peers.Origin(rec, responder).start()
+        url = 'http://127.0.0.1:%d/c04r/%d' % (o.port, n)
+        rs = []
+        for rep in range(4):
+            r = await peers.simple_get(rec, sq.port, url, vid='%d.%d' % (n, rep), headers=[('Cache-Control', 'max-age=0')] if rep == 1 else [])
+            rs.append(r)
+        await o.stop()
+        heads = [r.head for r in rs if r.head is not None]
+        if heads:
+            class H:
+                fields = [f for h in heads for f in h.fields]
+            seen['head'] = H
+            seen['teOk'] = all(r.complete for r in rs)
     else:
         hdrs, fields, closing = make_fields(par, rnd, base)
 
@@ -122,6 +152,8 @@ def run(ctx):
     if not ctx.thorough:
         rnd.shuffle(scens)
         scens = scens[:400]
+    r304 = [dict(s, par=dict(s['par'], dir='resp304')) for s in scens if s['par']['dir'] == 'resp']
+    scens = scens + (r304 if ctx.thorough else r304[:150])
     sq = squidctl.Squid(ctx, tree, clock=False)
     sq.start()
     try:
